@@ -41,7 +41,7 @@ func (l *lookup) Write(index int, v Value) {
 }
 
 func (l *lookup) Assign(index int, v Value) {
-	l.data[index] = v.assign(l.data[index].t)
+	l.data[index] = v.reassign(l.data[index].t)
 }
 
 func (l *lookup) Set(key string, v Value) {
